@@ -91,7 +91,7 @@ def run(tier, replay=None):
             "4": "reset after a stream abandoned inside a stored block", "5": "reset after a zlib stream that asked for a dictionary", "6": "reset after a complete gzip member",
             "7": "reset after an invalid stream", "8": "reset after set_dict and half a stream", "9": "reset after a gzip header split inside the comment (isal_inflate)"}
     USE = ["isal_read_gzip_header into caller buffers (name+comment) then body", "isal_read_gzip_header (all optional fields) then body", "gzip member through isal_inflate in 7-byte pieces",
-           "isal_read_zlib_header then body", "raw stored block with 1-byte output", "zlib through isal_inflate"]
+           "isal_read_zlib_header then body", "raw stored block with 1-byte output", "zlib through isal_inflate", "an invalid stream (match reaching before the start of the output): error code, reported output and bytes handed over"]
     for name in sorted(obs):
         m = re.match(r"inflate-use(\d)-history(\d)", name)
         if m and m.group(2) != "0":
